@@ -108,7 +108,12 @@ func cmdCheck(args []string) int {
 	tier := fs.String("tier", "quick", "")
 	writeLedger := fs.Bool("write-ledger", false, "record the proved obligations of this property in the ledger")
 	only := fs.String("only", "", "restrict to contracts whose key contains this")
+	scratch := fs.String("scratch", "", "write queries, replay files and evidence under this directory instead of -verif (self-tests on a copy of the repository)")
 	fs.Parse(args)
+	work := *verif
+	if *scratch != "" {
+		work = *scratch
+	}
 	t0 := time.Now()
 	seed, _ := strconv.ParseInt(os.Getenv("VERIF_SEED"), 10, 64)
 	if t := os.Getenv("VERIF_TIER"); t != "" && *tier == "" {
@@ -141,7 +146,7 @@ func cmdCheck(args []string) int {
 	extra := e.staticObligations(*prop)
 	genSecs := time.Since(t0).Seconds() - loadSecs
 
-	outDir := filepath.Join(*verif, "out", *prop)
+	outDir := filepath.Join(work, "out", *prop)
 	_ = os.RemoveAll(outDir)
 	_ = os.MkdirAll(outDir, 0o755)
 	// known findings and ledger
@@ -178,7 +183,7 @@ func cmdCheck(args []string) int {
 			}
 		}
 	}
-	timeout := 10 * time.Second
+	timeout := 15 * time.Second
 	all := false
 	if *tier == "thorough" {
 		timeout = 120 * time.Second
@@ -220,7 +225,7 @@ func cmdCheck(args []string) int {
 	for _, o := range knownObls {
 		generated[o.Name] = true
 	}
-	replayDir := filepath.Join(*verif, "replays", *prop)
+	replayDir := filepath.Join(work, "replays", *prop)
 	_ = os.RemoveAll(replayDir)
 	violate := func(name, clause string, detail map[string]any) {
 		_ = os.MkdirAll(replayDir, 0o755)
@@ -338,9 +343,9 @@ func cmdCheck(args []string) int {
 
 	// evidence
 	ev := buildEvidence(*prop, *tier, seed, results, reports, total, discharged, len(canaries), vacuous, violations, loadSecs, genSecs, solveSecs, solverTime, time.Since(t0).Seconds(), e, lines)
-	_ = os.MkdirAll(filepath.Join(*verif, "evidence"), 0o755)
+	_ = os.MkdirAll(filepath.Join(work, "evidence"), 0o755)
 	b, _ := json.MarshalIndent(ev, "", " ")
-	_ = os.WriteFile(filepath.Join(*verif, "evidence", *prop+".json"), b, 0o644)
+	_ = os.WriteFile(filepath.Join(work, "evidence", *prop+".json"), b, 0o644)
 
 	for _, l := range lines {
 		fmt.Println(l)
